@@ -83,7 +83,6 @@ func gcPushMacro(w *h.World, f *Fix, repo, n, tag string) []h.Violation {
 				vs = append(vs, h.V("complete-push-acknowledged", "dependency-push-refused", "upload of %s (needed by %s) answered %s", d, n, r))
 				return vs
 			}
-			delete(m.Cas, d)
 			m.PushBlob(d)
 		}
 	}
